@@ -123,7 +123,7 @@ def run_case(case, ch: Choices) -> RunResult:
                       "crash_at": None, "crash_kind": None}
                 if st["prior"] == "crashed_prefix":
                     st["crash_at"] = 1 + ch.draw("env.crash_at", max(1, writes0))
-                    st["crash_kind"] = ch.pick("env.crash_kind", ["crash", "enospc", "eio"])
+                    st["crash_kind"] = ch.pick("env.crash_kind", ["crash", "enospc", "eio", "torn", "torn", "empty"])
             envs.append(st)
             root = os.path.join(base, "s%d" % si)
             m = worlds.materialize(world, root, spart, qpart, creation_order_seed=st["creation_seed"], tail_seed=tail_seed)
@@ -140,7 +140,7 @@ def run_case(case, ch: Choices) -> RunResult:
                 res.bump("prior.over_existing")
             elif prior == "crashed_prefix":
                 rc = genrun.run_child(root, m["argv"], m["targets"], hashseed=st["hashseed"], enum_seed=st["enum_seed"], clock=st["clock"],
-                                      fault={"kind": st["crash_kind"], "at": st["crash_at"]})
+                                      fault={"kind": st["crash_kind"], "at": st["crash_at"], "num": 1 + (st["crash_at"] % 3), "den": 4})
                 if rc.get("harness_failure"):
                     raise RuntimeError("child failed: %s" % rc.get("child_stderr"))
                 if rc.get("injected"):
@@ -250,8 +250,8 @@ def plan(tier, base_seed) -> Plan:
     forced_sets = []
     for i, hs in enumerate(HASHSEEDS[1:5] if tier == "quick" else HASHSEEDS[1:]):
         forced_sets.append({"hashseed": hs, "enum_seed": 100 + i, "creation_seed": 7 + i, "clock": 1_700_000_000.0 + i,
-                            "prior": ["fresh", "over_existing", "twice", "crashed_prefix"][i % 4], "crash_at": 2 + 2 * i,
-                            "crash_kind": ["crash", "enospc", "eio"][i % 3]})
+                            "prior": ["crashed_prefix", "over_existing", "twice", "crashed_prefix", "fresh", "crashed_prefix", "crashed_prefix"][i % 7],
+                            "crash_at": [3, 0, 0, 8, 0, 5, 11][i % 7], "crash_kind": ["torn", "crash", "crash", "empty", "crash", "enospc", "torn"][i % 7]})
     n_corpus = len(cws)
 
     def case(i):
